@@ -37,12 +37,13 @@ static uint64_t next_bits(void)
     {
         /* bias towards small values so that assume()d bounds are often met */
         uint64_t r = rng >> 11;
-        switch(r & 3)
+        switch(r & 7)
         {
-        case 0: return (r >> 2) & 0x7;
-        case 1: return (r >> 2) & 0xff;
-        case 2: return (r >> 2) & 0x7f;
-        default: return r >> 2;
+        case 0: case 1: case 2: return (r >> 3) & 0x7;
+        case 3: case 4: return (r >> 3) & 0xf;
+        case 5: return (r >> 3) & 0xff;
+        case 6: return (r >> 3) & 0x7f;
+        default: return r >> 3;
         }
     }
     return rng;
